@@ -158,6 +158,9 @@ pub struct World {
     pub drop_panic_seen: bool,
     /// an iterator was forgotten earlier in this case
     pub forget_seen: bool,
+    /// a panic injected into one of the callbacks C16 lists was caught earlier
+    /// in this case: what follows is C16's "arbitrary further use"
+    pub panic_seen: bool,
 }
 
 #[macro_export]
@@ -204,6 +207,7 @@ impl World {
             foreign_first: Vec::new(),
             drop_panic_seen: false,
             forget_seen: false,
+            panic_seen: false,
         };
         let limit = w.resolve_limit_initial(&cfg.limit);
         let side = w.new_side(limit, cfg.capacity.map(|c| c as usize));
@@ -228,6 +232,11 @@ impl World {
         if self.drop_panic_seen {
             tags.retain(|t| *t != "C16" && (*t != "C17" || self.forget_seen));
             if tags.is_empty() { tags.push("C07"); }
+        }
+        else if self.panic_seen && !tags.contains(&"C16") && (tags.contains(&"C07") || tags.contains(&"C06")) {
+            // memory safety, coherence of traversal and lookups, ownership: what C16
+            // promises for the use of a cache after a caught panic
+            tags.push("C16");
         }
         self.fails.push(Failure { tags, sig, msg, step: self.step });
     }
